@@ -52,7 +52,11 @@ Proof. apply land128, b2n_lt. Qed.
 Definition struct_conds (c : ctx) (t0 l0 t1 lr : byte) (R : bytes) (t2 ls : byte) (Sv : bytes) : bool :=
   (b2n t0 =? 48)%N && (N.to_nat (b2n l0) =? 4 + length R + length Sv)%nat && (b2n t1 =? 2)%N && (b2n t2 =? 2)%N &&
   (N.to_nat (b2n ls) =? length Sv)%nat && int_ok_b R && int_ok_b Sv &&
-  (negb (has_flag c F_LOWS) || (be_dec Sv <=? half_order)%N).
+  (negb (has_flag c F_LOWS) ||
+   negb ((be_dec R <? curve_order)%N && (be_dec Sv <? curve_order)%N && (half_order <? be_dec Sv)%N)).
+
+Lemma firstn_app_len {A} (R X : list A) : firstn (length R) (R ++ X) = R.
+Proof. induction R; cbn; [destruct X; reflexivity|f_equal; assumption]. Qed.
 
 Ltac ev_at := unfold at_; cbn [nth_error length Nat.add app];
               rewrite ?nth_app_0, ?nth_app_1, ?nth_app_2, ?nth_app_3; cbn [nth_error]; cbv iota beta.
@@ -67,13 +71,15 @@ Proof.
   { cbn [length]. rewrite app_length. cbn [length]. lia. }
   rewrite !Lb. clear Lb.
   unfold at_ at 1 2 3. cbn [nth_error]. cbv iota beta. rewrite <- !HR.
+  replace (firstn (length R) (skipn 4 (t0 :: l0 :: t1 :: lr :: R ++ t2 :: ls :: Sv))) with R
+    by (cbn [skipn]; symmetry; apply firstn_app_len).
   destruct R as [|r0 [|r1 R']]; destruct Sv as [|s0 [|s1 Sv']].
   all: unfold struct_conds; cbn [int_ok_b length] in *.
   all: ev_at.
   all: rewrite ?land128b.
   all: cbn [skipn]; rewrite ?skipn_app_2.
   all: repeat match goal with
-       | |- (if (half_order <? be_dec (firstn ?n ?l))%N then _ else _) = _ =>
+       | |- context [be_dec (firstn ?n ?l)] =>
            replace (firstn n l) with l by (symmetry; apply firstn_all2; cbn [length]; lia)
        | |- (if ?b then _ else _) = _ => let E := fresh "E" in destruct b eqn:E
        end.
@@ -117,7 +123,7 @@ Lemma struct_conds_spec c t0 l0 t1 lr R t2 ls Sv : length R = N.to_nat (b2n lr) 
   struct_conds c t0 l0 t1 lr R t2 ls Sv = true <->
   (t0 = x30 /\ l0 = n2b (N.of_nat (4 + length R + length Sv)) /\ t1 = x02 /\ lr = n2b (N.of_nat (length R)) /\
    t2 = x02 /\ ls = n2b (N.of_nat (length Sv)) /\ der_integer R /\ der_integer Sv /\
-   (has_flag c F_LOWS = true -> low_s Sv)).
+   (has_flag c F_LOWS = true -> low_s R Sv)).
 Proof.
   intros HR Hlen. unfold struct_conds. rewrite !andb_true_iff, !int_ok_b_spec.
   assert (Hb : forall (x : byte) (k : nat), (k < 256)%nat -> N.to_nat (b2n x) = k <-> x = n2b (N.of_nat k)).
@@ -129,9 +135,19 @@ Proof.
   change 48%N with (b2n x30). change 2%N with (b2n x02). rewrite !Hc, !Nat.eqb_eq.
   rewrite (Hb l0 (4 + length R + length Sv)%nat) by lia. rewrite (Hb ls (length Sv)) by lia.
   assert (HlrR : lr = n2b (N.of_nat (length R))) by (apply (Hb lr (length R)); lia).
-  assert (Hlow : negb (has_flag c F_LOWS) || (be_dec Sv <=? half_order)%N = true <-> (has_flag c F_LOWS = true -> low_s Sv)).
-  { unfold low_s. rewrite <- half_order_spec. destruct (has_flag c F_LOWS); cbn [negb orb].
-    - rewrite N.leb_le. split; [auto|intros H; apply H; reflexivity].
+  assert (Hlow : negb (has_flag c F_LOWS) ||
+                 negb ((be_dec R <? curve_order)%N && (be_dec Sv <? curve_order)%N && (half_order <? be_dec Sv)%N) = true
+                 <-> (has_flag c F_LOWS = true -> low_s R Sv)).
+  { unfold low_s, in_range. rewrite <- half_order_spec, <- curve_order_spec. destruct (has_flag c F_LOWS); cbn [negb orb].
+    - split.
+      + intros H _ [H1 H2]. destruct (half_order <? be_dec Sv)%N eqn:E; [|lia].
+        replace (be_dec R <? curve_order)%N with true in H by lia.
+        replace (be_dec Sv <? curve_order)%N with true in H by lia. discriminate.
+      + intros H. specialize (H eq_refl).
+        destruct (be_dec R <? curve_order)%N eqn:E1; [|reflexivity].
+        destruct (be_dec Sv <? curve_order)%N eqn:E2; [|reflexivity].
+        cbn [andb]. assert (be_dec Sv <= half_order)%N by (apply H; split; lia).
+        replace (half_order <? be_dec Sv)%N with false by lia. reflexivity.
     - split; [intros _ H; discriminate|reflexivity]. }
   rewrite Hlow. tauto.
 Qed.
@@ -145,7 +161,7 @@ Lemma check_sig_enc_iff c b : enc_flags_on c = true ->
    exists R Sv : bytes,
      b = x30 :: n2b (N.of_nat (4 + length R + length Sv)) :: x02 :: n2b (N.of_nat (length R)) :: R ++
          x02 :: n2b (N.of_nat (length Sv)) :: Sv /\
-     der_integer R /\ der_integer Sv /\ (length b <= 72)%nat /\ (has_flag c F_LOWS = true -> low_s Sv)).
+     der_integer R /\ der_integer Sv /\ (length b <= 72)%nat /\ (has_flag c F_LOWS = true -> low_s R Sv)).
 Proof.
   intros Hf. split.
   - intros H. destruct (enc_ok_shape c b Hf H) as (t0 & l0 & t1 & lr & R & t2 & ls & Sv & -> & HR & Hlen).
@@ -184,3 +200,21 @@ Qed.
 (** the check never answers anything but accept / reject *)
 Theorem check_sig_enc_total c b : check_sig_enc c b = EncOk \/ check_sig_enc c b = EncErr.
 Proof. pose proof (check_sig_enc_no_panic c b). destruct (check_sig_enc c b); auto. congruence. Qed.
+
+(** LOW_S speaks of signatures in range: a strict-DER signature whose R or S is not below the group
+    order passes the encoding check under every flag set (it is not "high S"; it never verifies) *)
+Theorem out_of_range_passes c R Sv :
+  der_integer R -> der_integer Sv -> (length R + length Sv <= 66)%nat ->
+  (secp256k1_order <= be_dec R \/ secp256k1_order <= be_dec Sv)%N ->
+  check_sig_enc c (x30 :: n2b (N.of_nat (4 + length R + length Sv)) :: x02 :: n2b (N.of_nat (length R)) :: R ++
+                   x02 :: n2b (N.of_nat (length Sv)) :: Sv) = EncOk.
+Proof.
+  intros HR HS Hlen Hout. destruct (enc_flags_on c) eqn:Ef; [|apply check_sig_enc_off; exact Ef].
+  apply (check_sig_enc_iff c _ Ef). exists R, Sv. split; [reflexivity|]. split; [exact HR|]. split; [exact HS|].
+  split; [cbn [length]; rewrite app_length; cbn [length]; lia|].
+  intros _ [H1 H2]. exfalso. lia.
+Qed.
+
+(** and for a signature in range LOW_S is the plain comparison with half the order *)
+Theorem in_range_low_s R Sv : in_range R Sv -> (low_s R Sv <-> (be_dec Sv <= secp256k1_order / 2)%N).
+Proof. intros H. unfold low_s. tauto. Qed.
